@@ -332,7 +332,18 @@ pub fn primal_infeasible(rng: &mut Rng, o: &GenOpts) -> (Problem, Vec<f64>) {
             b[i] += shift * zbar[i];
         }
         let pd = random_psd(rng, n, o.mag_lo, o.mag_hi);
-        let q: Vec<f64> = (0..n).map(|_| rng.range(-1.0, 1.0)).collect();
+        // dual strictly feasible by construction (q = -P u - A'w with w in int K*): the problem is primal
+        // infeasible ONLY.  With a random q the instance can be dual infeasible as well (a zero column of A with a
+        // nonzero cost is enough), and for problems infeasible both ways the homogeneous embedding promises nothing
+        // (seen: iterates collapsing to zero and `Solved` at x/tau ~ 1e9).
+        let u: Vec<f64> = (0..n).map(|_| rng.range(-1.0, 1.0)).collect();
+        let mut w = vec![];
+        for c in &cones {
+            w.extend(sample_interior(c, rng, true, 1.0, 1.0));
+        }
+        let pu = pd.matvec(&u);
+        let atw = a.tmatvec(&w);
+        let q: Vec<f64> = (0..n).map(|j| -pu[j] - atw[j]).collect();
         let p = Problem { P: p_to_csc(&pd, rng.bool(o.p_full_prob)), q, A: a.to_csc(), b, cones };
         return (p, zbar);
     }
